@@ -31,6 +31,10 @@ package main
 // real runRestore and total_size must equal the sum of the sizes of the
 // distinct (device, inode) regular files on disk, total_file_count the number
 // of restored entries.
+//
+// Deviations from DESIGN: the quick tier stops at 4 nodes (thorough: 5); two
+// snapshots are always T plus a partner (itself or one of two fixed trees)
+// instead of all pairs of trees.
 
 import (
 	"context"
